@@ -43,6 +43,8 @@ func c01Run(c *fw.Case, env *fw.Env) *fw.Obs {
 		entry = "wrgl-commit"
 	} else if p.Cfg.Via == "cli-bf" {
 		entry = "wrgl-commit-branch-file"
+	} else if p.Cfg.Via == "cli-cfg" {
+		entry = "wrgl-commit-configured-file"
 	}
 	res := runIngest(env, c.ID, csvBytes, pkNames, p.Cfg, nil)
 	defer res.Close()
@@ -100,7 +102,7 @@ func c01Run(c *fw.Case, env *fw.Env) *fw.Obs {
 	if cl, d := model.Compare(tc.Rows); cl != "" {
 		o.Violate(cl+"/"+entry+"/"+class, "block read-back (cfg %s): %s", cfgString(p.Cfg), d)
 	}
-	if p.Cfg.Via == "cli" || p.Cfg.Via == "cli-bf" {
+	if p.Cfg.Via == "cli" || p.Cfg.Via == "cli-bf" || p.Cfg.Via == "cli-cfg" {
 		// The export is compared with the rows read back from the blocks (already
 		// checked against the model), modulo what re-parsing a CSV does to a cell:
 		// encoding/csv drops a CR that precedes a LF, also inside quoted fields.
@@ -257,8 +259,11 @@ func init() {
 					cfg.Store = "badger"
 				case 1, 2, 3:
 					cfg.Via = "cli"
-					if rng.Intn(3) == 0 {
+					switch rng.Intn(6) {
+					case 0, 1:
 						cfg.Via, cfg.Delim = "cli-bf", ""
+					case 2:
+						cfg.Via, cfg.Delim = "cli-cfg", ""
 					}
 					if cfg.Chunks == "auto" {
 						cfg.Chunks = "two"
